@@ -271,7 +271,6 @@ func init() {
 		}
 		fams := []string{"S", "C", "R", "N", "U", "S", "R", "N", "C"}
 		c11JudgeWorld(r, c11F6bWitness(), true) // dedicated probe of the listed finding F6b
-		c11ScaleSuite(r, rng, tier)              // hundreds / thousands of parents (c11_scale.go)
 		for i := 0; i < worlds && !expired(); i++ {
 			f := c11Families[fams[i%len(fams)]]
 			mode := 0
